@@ -1,5 +1,6 @@
 (* C13 - Fixed-width reading is lossless and aligned.  Property theorems only. *)
-From CP Require Import Model.Base Model.Fixed Spec.FixedSpec Proofs.FixedProofs.
+From Coq Require Import String.
+From CP Require Import Model.Base Model.Fixed Spec.FixedSpec Proofs.FixedProofs Proofs.FixedComplete.
 
 (* A run that ends without DataFormatError returned rows that are aligned (every item has its
    declared width) and whose concatenation, interleaved with permitted delimiters (the last one
@@ -8,3 +9,19 @@ Theorem fixed_sound : forall d ws s rows,
   Forall (fun w => 1 <= w) ws -> ws <> [] ->
   fixed_rows d ws s = Some (rows, true) -> well_formed d ws s rows.
 Proof. exact fixed_sound_lemma. Qed.
+
+(* Conversely: every well-formed file - records of the declared widths, each followed by a delimiter the setting
+   permits (the last one optional; under "any" a bare CR is not followed by a record starting with LF, which would be
+   CR LF) - is read back as exactly the records it holds, complete, in order and without an error. Together with
+   fixed_sound: reading is lossless. *)
+Theorem fixed_complete : forall d ws rd, Forall (fun w => 1 <= w) ws -> ws <> [] ->
+  Forall (row_ok ws) (map fst rd) -> delims_ok d rd -> greedy rd ->
+  fixed_rows d ws (render rd) = Some (map fst rd, true).
+Proof. exact fixed_complete_lemma. Qed.
+
+Example fixed_example :
+  fixed_rows LdAny [2; 3]%nat (txt "ab123" ++ [CR] ++ txt "cd456" ++ [CR; LF] ++ txt "ef789" ++ [LF] ++ txt "gh000")
+  = Some ([[txt "ab"; txt "123"]; [txt "cd"; txt "456"]; [txt "ef"; txt "789"]; [txt "gh"; txt "000"]], true)
+  /\ fixed_rows LdLF [2; 3]%nat (txt "ab123" ++ [LF] ++ txt "cd4") = Some ([[txt "ab"; txt "123"]], false)
+  /\ fixed_rows LdNone [1]%nat (txt "xyz") = Some ([[txt "x"]; [txt "y"]; [txt "z"]], true).
+Proof. repeat split; vm_compute; reflexivity. Qed.
